@@ -922,6 +922,7 @@ def jackknife(ctx):
     num, den = sym(fi.params[0].name), sym(fi.params[1].name)
     est_store = [e for e in ev.events if e.kind == "store" and e.loops]
     ok, why = False, "leave-one-out store not found"
+    v = None
     if est_store:
         e = est_store[-1]
         i = e.data[1][0]
@@ -951,8 +952,46 @@ def jackknife(ctx):
             ok = n1 is not None and n1 is n2
             why = "ratio of the two leave-one-out means over n - 1, same i and n" if ok else \
                 "numerator / denominator leave-one-out means are not built alike"
-    ctx.ob("PAIR-4", "jackknife_ratios: sample i is removed from both means, both divided by n - 1", ok, why, fi)
+            if n1 is None and n2 is None:
+                why = "unread"
+    if why in ("leave-one-out store not found", "unread") or (est_store and not ok and m_binop(v, "/") is None):
+        # the leave-one-out ratios come out of a helper / generator or are written in a form this rule does not read:
+        # nothing identified, nothing judged
+        ctx.rep.note("jackknife_ratios: the in-loop store of (mean_num_(i) / mean_denom_(i)) was not identified; the "
+                     "leave-one-out pairing rule (PAIR-4) does not apply to this shape of the code")
+    else:
+        ctx.ob("PAIR-4", "jackknife_ratios: sample i is removed from both means, both divided by n - 1", ok, why, fi)
     R = ev.result(fr)
+    # Re(a / b) is not Re(a) / Re(b): a ratio whose numerator and denominator are the real parts of quantities built from the
+    # numerator / denominator series is a positive witness (identical for real samples, wrong for complex ones)
+    def _count_only(t):
+        """t depends on the series at most through their length (x.size, x.shape[0], len(x))"""
+        from ..symex import substitute
+        blank = {}
+        for x in subterms(t):
+            if (x.op == "attr" and x.args[1] in ("size", "shape") and (x.args[0] is num or x.args[0] is den)) or \
+                    (x.op == "call" and func_name(x) == "builtins.len" and len(x.args) == 2 and (x.args[1] is num or x.args[1] is den)):
+                blank[x] = sym("§n")
+        t2 = substitute(t, blank) if blank else t
+        return not any(x is num or x is den for x in subterms(t2))
+
+    def _is_real_of(t, series):
+        t = strip_wrappers(t)
+        inner = None
+        if t.op == "attr" and t.args[1] == "real":
+            inner = t.args[0]
+        elif t.op == "call" and m_arrcall(t, "real") is not None:
+            inner = m_arrcall(t, "real")[0]
+        elif t.op == "binop" and t.args[0] in ("/", "*") and _count_only(t.args[2]):
+            return _is_real_of(t.args[1], series)          # Re(x) / (n - 1)
+        elif t.op == "call" and t.args[0].op == "attr" and t.args[0].args[1] == "astype":
+            return _is_real_of(t.args[0].args[0], series)
+        return inner is not None and any(x is series for x in subterms(inner))
+    split = [x for x in subterms(R) if x.op == "binop" and x.args[0] == "/" and _is_real_of(x.args[1], num)
+             and _is_real_of(x.args[2], den)]
+    if split:
+        ctx.ob("PAIR-4", "jackknife_ratios: the real part is taken of the ratio, not of numerator and denominator separately",
+               False, f"{show(split[0], maxdepth=2)[:80]}: Re(a) / Re(b) for Re(a / b)", fi)
     ok_s = False
     est = None
     if R.op == "tuple" and len(R.args) == 2:
@@ -968,6 +1007,16 @@ def jackknife(ctx):
                         est = strip_wrappers(vr[0])
     ctx.ob("PAIR-4", "jackknife_ratios: sigma = sqrt((n - 1) * var(leave-one-out estimates))", ok_s, "", fi)
     if ok_s and est is not None:
+        # np.var of a complex array is E|z - <z>|^2: the imaginary fluctuations of the ratios enter sigma unless the real
+        # part is taken before the variance (the loop stores (a / b).real).  Witness: no real-part operation anywhere in
+        # the array whose variance is taken, although it is a ratio of series-dependent values
+        has_real = any((x.op == "attr" and x.args[1] == "real") or (x.op == "call" and m_arrcall(x, "real") is not None)
+                       for x in subterms(est))
+        has_ratio = any(x.op == "binop" and x.args[0] == "/" and any(y is num for y in subterms(x.args[1]))
+                        and any(y is den for y in subterms(x.args[2])) for x in subterms(est))
+        if has_ratio and not has_real:
+            ctx.ob("PAIR-4", "jackknife_ratios: sigma is the spread of the real parts of the leave-one-out ratios", False,
+                   f"var({show(est, maxdepth=2)[:60]}) is taken of the complex ratios: no real part before the variance", fi)
         # the estimator the brute-force leave-one-out computation gives is the average of the leave-one-out ratios (the array
         # whose variance makes sigma); the plain ratio of the full-sample means differs from it by the O(1/n) jackknife bias
         mean_t = strip_wrappers(R.args[0])
